@@ -16,8 +16,8 @@ from ..defs_reg_common import (new_file, rel_import, to_case, coq_closure, impl_
 THEOREMS = [
     "C12_ties_to_code", "C12_fuel_sufficient", "C12_parse_is_run_of_trace", "C12_trace_visits_reachable_once",
     "C12_first_conflict", "C12_complete", "C12_complete_msg_id", "C12_complete_name", "C12_complete_host_module_id",
-    "C12_complete_range", "C12_range_guards", "C12_no_false_conflict", "C12_sound_partial", "C12_sound_refuted",
-    "C12_sound_refuted_other_order", "C12_range_exemption_refuted", "C12_reserved_name_inj",
+    "C12_complete_range", "C12_range_guards", "C12_no_false_conflict", "C12_sound", "C12_wf_is_check_name",
+    "C12_reserved_name_inj", "C12_ex_reserved_is_not_a_name", "C12_ex_core_file_identity",
     "C12_ex_diamond_once", "C12_ex_cycle", "C12_ex_reserved_overlap",
 ]
 
@@ -426,14 +426,17 @@ def analyse(cl: dict, maxmt: int, natives: List[str]) -> dict:
     alias_names = {n for i in reach for n, _ in files[i]["aliases"]}
     for i in reach:
         f = files[i]
-        enforced = cl["icd"] and not f.get("is_core")
+        enforced = cl["icd"] and not is_core_name(f)     # the package's own core_defs.yaml alone is exempt
         keys = [[n for n, _ in f["constants"]], f["strings"], [n for n, _ in f["aliases"]], [n for n, _ in f["hosts"]],
                 [n for n, _ in f["modules"]], f["structs"],
                 [m[1] if m[0] == "def" else "_RESERVED_" for m in f["messages"]]]
         if any(dups(k) for k in keys):
             problems.setdefault("yaml-dup", []).append(f["path"])
-        user_names = keys[0] + keys[1] + keys[2] + keys[5] + [m[1] for m in f["messages"] if m[0] == "def"] + keys[3] + keys[4]
-        for n in user_names:
+        # `_RESERVED_` is a directive of message_defs only; everywhere else a name starts with a letter
+        for n in keys[0] + keys[1] + keys[2] + keys[5] + keys[3] + keys[4]:
+            if not (n[:1].isascii() and n[:1].isalpha()):
+                problems.setdefault("bad-name", []).append(n)
+        for n in [m[1] for m in f["messages"] if m[0] == "def"]:
             if not (n[:1].isascii() and n[:1].isalpha()) and n != "_RESERVED_":
                 problems.setdefault("bad-name", []).append(n)
         for n, v in f["constants"]:
@@ -498,13 +501,7 @@ def analyse(cl: dict, maxmt: int, natives: List[str]) -> dict:
         problems["module-id"] = dups(mods)
     if dups(hosts):
         problems["host-id"] = dups(hosts)
-    # the two recorded classes
-    nonmsg_reserved = any(n == "_RESERVED_" for i in reach for n in
-                          [x for x, _ in files[i]["constants"]] + files[i]["strings"]
-                          + [x for x, _ in files[i]["aliases"]] + files[i]["structs"])
-    has_block = any(m[0] == "res" for i in reach for m in files[i]["messages"])
-    return dict(reach=reach, problems=problems, exp=exp, unconstrained=unconstrained, files=files,
-                reserved_item_and_block=nonmsg_reserved and has_block)
+    return dict(reach=reach, problems=problems, exp=exp, unconstrained=unconstrained, files=files)
 
 
 def oracle(cl: dict, res: dict, maxmt: int, natives: List[str]) -> Optional[Tuple[str, str]]:
@@ -515,10 +512,6 @@ def oracle(cl: dict, res: dict, maxmt: int, natives: List[str]) -> Optional[Tupl
         return None
     if pr:
         if res["ok"]:
-            if set(pr) == {"range"} and all(p.endswith("core_defs.yaml") and not p.startswith("<core>")
-                                            for p, _, _ in pr["range"]):
-                return ("missed-range:user-file-named-core_defs.yaml",
-                        f"out-of-range ids {pr['range']} accepted: the exemption looks at the file NAME only")
             return ("missed:" + "+".join(sorted(pr)), f"accepted although {pr}")
         allowed = {CLASS_OF[c] for c in pr}
         if res["exc"] not in allowed:
@@ -528,10 +521,6 @@ def oracle(cl: dict, res: dict, maxmt: int, natives: List[str]) -> Optional[Tupl
             return ("not-a-parser-error:" + res["exc"], res["msg"][:120])
         return None
     if not res["ok"]:
-        if res["exc"] == "DuplicateNameError" and a["reserved_item_and_block"]:
-            return ("false-conflict:item-named-_RESERVED_",
-                    "DuplicateNameError between an item named _RESERVED_ and a reserved-id block "
-                    "(reported only when the item is read first)")
         return ("false-conflict:" + str(res["exc"]), f"rejected a conflict-free closure: {res['msg'][:160]}")
     exp = a["exp"]
     inc = included_indices(cl, res)
@@ -628,8 +617,9 @@ def run(chk: Check):
         "file identity = pathlib.Path.resolve() modelled as an abstract file index (exercised on disk: .., symlinked file and directory, other cwd)",
         "ruamel.yaml safe loader rejects a repeated key inside one mapping (modelled as a per-file pre-pass; observed as YAMLSyntaxError)",
         "constants are integer literals; struct/message fields are a single valid native field (field resolution and layout belong to C11/C04)",
-        "host/module id ranges are enforced by the code only when import_coredefs is on and the declaring file is not NAMED core_defs.yaml; "
-        "the theorems carry exactly that hypothesis (see the recorded finding for user files with that name)",
+        "host/module id ranges are enforced when import_coredefs is on, for every file except the package's own core_defs.yaml "
+        "(Parser.is_core_file, resolved-path identity, modelled as the flag f_core of the closure; a user file NAMED core_defs.yaml "
+        "in another directory is part of the generated cases)",
         "python dict registration = append to an association list: equal when keys are distinct, which C12_reserved_name_inj and the duplicate-name checks give",
     ]
     for b in bad[:3]:
